@@ -155,7 +155,14 @@ def rule_A2(ctx, prog, label, rule='A2'):
     for n in fw.body.walk():
         if n.kind in ('CompoundAssignOperator', 'BinaryOperator') and n.op in ('|=', '=') and 'mzd_flag_nonzero_excess' in pp(n.kids[1]):
             l = strip(n.kids[0], casts=True)
-            if not (l.kind == 'MemberExpr' and l.name == 'flags'):
+            if l.kind == 'DeclRefExpr' and l.refkind == 'VarDecl':
+                # the flags are collected in a local that is then stored into ->flags
+                flows = any(m_.kind == 'BinaryOperator' and m_.op == '=' and strip(m_.kids[0], casts=True).kind == 'MemberExpr' and
+                            strip(m_.kids[0], casts=True).name == 'flags' and strip(m_.kids[1], casts=True).kind == 'DeclRefExpr' and
+                            strip(m_.kids[1], casts=True).refid == l.refid for m_ in fw.body.walk())
+                if not flows:
+                    continue
+            elif not (l.kind == 'MemberExpr' and l.name == 'flags'):
                 continue
             ifs = fsw.enclosing(n, ('IfStmt',))
             if ifs is None:
@@ -184,8 +191,13 @@ def rule_A2(ctx, prog, label, rule='A2'):
     rs = {}
     for fn, n in writers.get('rowstride', []):
         if n.kind == 'BinaryOperator':
+            rhs_ = strip(n.kids[1], casts=True)
+            wfs_ = FuncSym(prog.func(fn))
+            for _ in range(3):      # a value prepared in a const local stands for its definition
+                if rhs_.kind == 'DeclRefExpr' and rhs_.refkind == 'VarDecl' and wfs_.single_def(rhs_.refid) is not None:
+                    rhs_ = strip(wfs_.single_def(rhs_.refid), casts=True)
             for c0 in ([fn] if fn in CONSTRUCTORS else sorted(owner_of.get(fn, ()))):
-                rs[c0] = pp(strip(n.kids[1], casts=True))
+                rs[c0] = pp(rhs_)
     rr.instances += 2
     rr.ob('rowstride' in rs.get('mzd_init_window', '') and '->' in rs.get('mzd_init_window', ''),
           dict(field='rowstride', mzd_init_window=rs.get('mzd_init_window')),
